@@ -30,6 +30,8 @@ def run(ctx):
     ex, obs = add_to_ctx(ctx, c, callees)
     n += len(obs)
     from ..pyvc import conformance
+    from . import tree_proofs
 
+    tree_note = tree_proofs.run(ctx, "C06")
     conformance.add_to_ctx(ctx, ["chunk_reduce on an arg-reduction"])
-    return f"arg-reduction pair algebra, _pick_second, chunk_argreduce (reports the global position idx[p] of the block-local extreme p, a member of the group with the reported value): {n} obligations."
+    return f"arg-reduction pair algebra, _pick_second, chunk_argreduce (reports the global position idx[p] of the block-local extreme p, a member of the group with the reported value): {n} obligations. " + tree_note
